@@ -398,7 +398,7 @@ class VArr(_Generic):
                 ge = subst_index(ge, {j: V(fa) for j, fa in enumerate(free_axes)}) if free_axes != list(range(len(free_axes))) else ge
                 ge = SV(z3.substitute(ge.t, *sub))
                 gains.append(VArr(self.shape_, ge))
-            self.filtered = {"gains": gains, "cond": cond, "source_elem": self.elem}
+            self.filtered = {"gains": gains, "cond": cond, "source_elem": self.elem, "spectrum_roll": v.spectrum_roll}
             f = z3.Function(f"filtered!{next(_ids)}", *([z3.IntSort()] * self.ndim + [z3.RealSort()]))
             self.elem = SV(f(*[V(a) for a in range(self.ndim)]))
             return
@@ -543,6 +543,8 @@ class Spectrum(_Generic):
 class FilteredMap(_Generic):
     """ifftn(DFT(x) * G) (and its real part): the map x filtered with the Fourier-space gain G"""
 
+    spectrum_roll = None  # per-axis roll (mod n) of the spectrum at the inverse transform when it was not brought back to the natural layout
+
     def __init__(self, source, gains, real=False):
         self.source, self.gains, self._real = source, gains, real
 
@@ -554,7 +556,9 @@ class FilteredMap(_Generic):
     def real(self):
         if self._real:
             return True
-        return FilteredMap(self.source, self.gains, True)
+        r = FilteredMap(self.source, self.gains, True)
+        r.spectrum_roll = self.spectrum_roll
+        return r
 
 
 class FFT:
@@ -574,7 +578,20 @@ class FFT:
     def ifftn(s, *a, **k):
         if isinstance(s, Spectrum):
             if s.shifted != 0 or s.pending:
-                raise Unsupported("inverse transform of a spectrum that is still in shifted layout")
+                # the inverse transform is applied to a spectrum that is still laid out with `shifted` net (i)fftshifts: relative to the natural
+                # layout it is rolled by shifted * (n // 2) per axis.  The result is x filtered with the (converted) gains only if every roll is
+                # a multiple of n; the rolls are handed to the contract, which demands them to be zero.
+                if s.shifted not in (1, -1, 2, -2):
+                    raise Unsupported("inverse transform of a spectrum shifted more than twice")
+                gains = list(s.gains)
+                for g, lay in s.pending:
+                    if lay not in (1, -1):
+                        raise Unsupported("gain applied in a doubly shifted layout")
+                    gains.append(FFT._shift(g, +1 if lay == 1 else -1))
+                r = FilteredMap(s.source, gains)
+                # natural layout iff the roll is a multiple of n: roll == 0, or n == 1 (where every roll is)
+                r.spectrum_roll = [z3.If(_size_t(n) == 1, 0, (_size_t(n) / 2) if abs(s.shifted) == 1 else (_size_t(n) - 2 * (_size_t(n) / 2))) for n in s.source.shape_]
+                return r
             return FilteredMap(s.source, s.gains)
         import numpy as np
         return np.fft.ifftn(s, *a, **k)
